@@ -329,6 +329,7 @@ def run(ck):
             ck.violation("C09/correspondence/%s" % h[k][0], "model and implementation differ at step %d (%s): impl=%s | model=%s" % (k, h[k][0], sa[k][-400:], sb[k][-400:]),
                          {"kind": "history", "ops": json.loads(json.dumps(h, default=str))}, found_input=False)
     gate_eq_oracle(ck)
+    gate_inverse_oracle(ck)
     clifford_oracle(ck, tables_ok)
     threshold_oracle(ck)
 
@@ -356,6 +357,41 @@ def gate_eq_oracle(ck):
             cls = "controlled-2pi" if name in ("CRX", "CRY", "CRZ") else "other"
             ck.violation("C09/Gate.__eq__/%s" % cls, "%r == %r but the operations differ (distance up to phase %.3g)" % (g1, g2, d),
                          {"kind": "gate_eq", "g1": spec, "g2": s2})
+
+
+def gate_inverse_oracle(ck):
+    """Gate.inverse() is the inverse operation, for every invertible gate kind, 0-2 controls and angles on a grid that
+    reaches well beyond +/-4*pi (where folding an angle modulo 2*pi is wrong for controlled rotations) plus float angles:
+    gate followed by gate.inverse() is the identity up to a global phase; the input gate is unchanged."""
+    from tangelo.linq import Gate
+    rng = ck.rng
+    ck.stream("gate-inverse", "every invertible gate kind x controls 0..2 x angles k*pi/8 with |k| up to 100 (beyond 4*pi, 8*pi) and random "
+              "float angles up to +/-30: g ; g.inverse() = identity up to phase (numpy), operand unchanged; non-trivial = parameterized")
+    ks = [0, 1, -1, 5, -7, 16, -16, 31, 32, 33, -33, 36, -40, 47, 48, -50, 63, 64, 65, -72, 96, 100, -100]
+    names = [n for n in LC.ALL_UNITARY]
+    for name in names:
+        for n_ctrl in ([0] if not name.startswith("C") else [1, 2]):
+            two = name in ("SWAP", "XX", "CSWAP")
+            target = [0, 1] if two else [0]
+            control = None if not name.startswith("C") else list(range(len(target), len(target) + n_ctrl))
+            n = len(target) + (len(control) if control else 0)
+            param = name in LC.ONE_Q_ROT + LC.CTRL_ROT + LC.TWO_T_ROT
+            angles = ([LC.theta(k) for k in ks] + [rng.uniform(-30, 30) for _ in range(3 if ck.tier == "quick" else 40)]) if param else [None]
+            for th in angles:
+                try:
+                    g = Gate(name, list(target), None if control is None else list(control), "" if th is None else th)
+                    before = repr(g)
+                    gi = g.inverse()
+                except Exception as e:
+                    ck.violation("C09/Gate.inverse/raises", "%s(%s) inverse raises %r" % (name, th, e), {"kind": "gate_inverse", "name": name, "target": target, "control": control, "theta": th})
+                    continue
+                d = NS.phase_distance(NS.unitary(NS.gates_of([g, gi]), n), np.eye(1 << n))
+                ck.case("gate-inverse", "%s/%s/%r" % (name, n_ctrl, th), nontrivial=param, sample={"gate": name, "controls": n_ctrl, "theta": th, "inverse": repr(gi)}, tags=[name])
+                if d > 1e-7 or repr(g) != before:
+                    cls = "controlled-rotation" if name in LC.CTRL_ROT else "other"
+                    ck.violation("C09/Gate.inverse/%s" % cls, "%r followed by its inverse %r is not the identity (distance up to phase %.3g)%s" % (
+                                 g, gi, d, "" if repr(g) == before else "; operand modified"),
+                                 {"kind": "gate_inverse", "name": name, "target": target, "control": control, "theta": th})
 
 
 def clifford_oracle(ck, tables_ok=True):
@@ -457,6 +493,14 @@ def replay(data):
         d = NS.phase_distance(NS.unitary(NS.gates_of([g1]), 3), NS.unitary(NS.gates_of([g2]), 3))
         print(repr(g1), "==", repr(g2), g1 == g2, "distance", d)
         return 1 if (g1 == g2 and d > TOL) else 0
+    if r.get("kind") == "gate_inverse":
+        from tangelo.linq import Gate
+        g = Gate(r["name"], r["target"], r["control"], "" if r["theta"] is None else r["theta"])
+        gi = g.inverse()
+        n = len(r["target"]) + len(r["control"] or [])
+        d = NS.phase_distance(NS.unitary(NS.gates_of([g, gi]), n), np.eye(1 << n))
+        print(repr(g), "inverse", repr(gi), "distance to identity up to phase", d)
+        return 1 if d > 1e-7 else 0
     if r.get("kind") == "clifford" and "theta" in r:
         from tangelo.linq import Gate
         from tangelo.linq.helpers.circuits.clifford_circuits import decompose_gate_to_cliffords
